@@ -1,6 +1,7 @@
 """C13 — unphase: accepts every VCF, removes all phase information and nothing else; idempotent."""
 import hashlib
 import os
+import shutil
 import subprocess
 import sys
 import tempfile
@@ -22,13 +23,64 @@ RULE = (
     "Non-trivial: the input carries >=1 phase statement ('|' GT, PS/HP/PQ value) and >=1 call that is not a plain diploid "
     "genotype; distinct by hash of the input text."
 )
-REQUIRED_COUNTERS = ["runs_ok", "diff_checked", "idempotence_checked", "phase_statements_in_input"]
+REQUIRED_COUNTERS = ["runs_ok", "diff_checked", "idempotence_checked", "phase_statements_in_input", "history_pairs_checked"]
 ASSUMPTIONS = ["inputs are well-formed VCF 4.2 as accepted by htslib; bgzip input covered for a subset"]
 MAX_WORKERS = 16
 
 
 def lanes(tier):
-    return [("plain", "plain", 500 if tier == "quick" else 8000)]
+    return [("plain", "plain", 500 if tier == "quick" else 8000), ("hist", "plain", 48 if tier == "quick" else 800)]
+
+
+def run_history(rng, counters):
+    """unphase(phase(x)) == unphase(x), record for record, for x phased by whatshap phase (either tag)."""
+    from whatshap.cli.unphase import run_unphase
+
+    from wv import pipeline
+    from wv.gen import genome
+
+    tmp = tempfile.mkdtemp(prefix="c13h-", dir=os.environ.get("WV_SCRATCH"))
+    try:
+        nsamp = rng.choice([1, 2])
+        p = {"n_chrom": rng.choice([1, 2]), "chrom_len": 2000, "n_var": rng.randint(4, 14), "kinds": ["snv", "snv", "ins", "del"],
+             "samples": ["sample%s" % c for c in "AB"[:nsamp]], "depth": rng.choice([3, 8]), "read_len": (150, 600), "end_policy": "clean",
+             "error_rate": rng.choice([0.0, 0.02]), "het_prob": 0.8, "unsorted_gt": rng.choice([0.0, 0.5]), "allow_shiftable": False}
+        sim = genome.simulate(rng, tmp, p)
+        prephase = rng.choice([None, None, "PS", "HP"])
+        if rng.random() < 0.6:
+            gvcf.hostilize(rng, sim.doc, prephase=prephase, allow_missing=True)
+            sim.doc.write(sim.vcf)
+        tag = rng.choice(["PS", "HP"])
+        desc = {"params": p, "tag": tag, "prephase": prephase}
+        if not vcfdiff.htslib_roundtrips(sim.vcf, os.path.join(tmp, "rt.vcf")):
+            return [], False, desc
+        phased = os.path.join(tmp, "phased.vcf")
+        status, trace, msg = pipeline.run_phase(sim, phased, reference=False, tag=tag)
+        if status != "ok":
+            return [], False, desc
+        u1, u2 = os.path.join(tmp, "u1.vcf"), os.path.join(tmp, "u2.vcf")
+        try:
+            run_unphase(phased, u1)
+            run_unphase(sim.vcf, u2)
+        except Exception:
+            tb = traceback.format_exc()
+            return [{"mech": classify_crash(tb, None), "msg": "run_unphase raised in the history stratum: %s" % tb[-1200:]}], False, desc
+        counters["history_pairs_checked"] = counters.get("history_pairs_checked", 0) + 1
+        r1 = vcftext.parse(open(u1).read())[2]
+        r2 = vcftext.parse(open(u2).read())[2]
+        viol = []
+        nphased = sum(1 for r in vcftext.parse(open(phased).read())[2] for c in r["calls"] if vcftext.decode_call(c) is not None)
+        if len(r1) != len(r2):
+            viol.append({"mech": "history-record-count", "msg": "unphase(phase(x)) has %d records, unphase(x) %d" % (len(r1), len(r2))})
+        for a, b in zip(r1, r2):
+            if a != b:
+                ka = {k: a[k] for k in a if a[k] != b.get(k)}
+                kb = {k: b[k] for k in ka}
+                viol.append({"mech": "history-differs", "msg": "%s:%d unphase(phase(x)) %r vs unphase(x) %r (tag %s)" % (a["chrom"], a["pos"], ka, kb, tag)})
+                break
+        return viol, nphased >= 2, desc
+    finally:
+        shutil.rmtree(tmp, ignore_errors=True)
 
 
 def _gt_policy(rec, sample, a, b):
@@ -151,6 +203,18 @@ def run_case(idx, rng, tier, lane):
     viol = []
     sample = None
     case = None
+    if lane == "hist":
+        for j in range(5):
+            v, nt, desc = run_history(rng, counters)
+            for x in v:
+                x["data"] = desc
+            viol += v
+            if nt:
+                keys.add(hashlib.sha1(repr(desc).encode()).hexdigest()[:16] + str(counters.get("history_pairs_checked")))
+            sample = desc
+        seen = set()
+        viol = [x for x in viol if not (x["mech"] in seen or seen.add(x["mech"]))]
+        return {"nontrivial": bool(keys), "key": sorted(keys), "violations": viol, "counters": counters, "sample": sample, "case": None}
     tmp = tempfile.mkdtemp(prefix="c13-", dir=os.environ.get("WV_SCRATCH"))
     try:
         for j in range(8):
